@@ -1451,6 +1451,32 @@ static void setMath(ModelS &m, const MathLoc &l, const std::string &text, bool w
     if (l.reset < 0) m.comps[l.c].math = whole ? text : M(eq(ci(x.a), text));
     else (l.test ? m.comps[l.c].resets[size_t(l.reset)].test : m.comps[l.c].resets[size_t(l.reset)].value) = whole ? text : M(text);
 }
+// position contexts: the faulty expression is not only the whole right-hand side / value but also sits at every kind of child
+// position the children/siblings walk distinguishes (operand, piece value, piece condition, otherwise, degree, logbase, the
+// operand after a qualifier, the degree of a bvar, two levels down). Family M only (g_fullMath); context 0 everywhere.
+static const std::vector<std::string> &mathPositions()
+{
+    static const std::vector<std::string> p = {"", "operand", "piece-value", "piece-condition", "otherwise", "degree", "logbase", "after-degree", "after-logbase", "bvar-degree", "level-2"};
+    return p;
+}
+static std::string atPosition(size_t pos, const std::string &t, const MCtx &x)
+{
+    const std::string one = cn("1", "dimensionless");
+    const std::string cond = ap("gt", ci(x.a) + one);
+    switch (pos) {
+    case 1: return ap("plus", ci(x.a) + t);
+    case 2: return "<piecewise><piece>" + t + cond + "</piece><otherwise>" + ci(x.a) + "</otherwise></piecewise>";
+    case 3: return "<piecewise><piece>" + ci(x.a) + t + "</piece><otherwise>" + ci(x.a) + "</otherwise></piecewise>";
+    case 4: return "<piecewise><piece>" + ci(x.a) + cond + "</piece><otherwise>" + t + "</otherwise></piecewise>";
+    case 5: return "<apply><root/><degree>" + t + "</degree>" + ci(x.a) + "</apply>";
+    case 6: return "<apply><log/><logbase>" + t + "</logbase>" + ci(x.a) + "</apply>";
+    case 7: return "<apply><root/><degree>" + one + "</degree>" + t + "</apply>";
+    case 8: return "<apply><log/><logbase>" + one + "</logbase>" + t + "</apply>";
+    case 9: return "<apply><diff/><bvar>" + ci(x.b) + "<degree>" + t + "</degree></bvar>" + ci(x.a) + "</apply>";
+    case 10: return ap("minus", ap("times", ci(x.a) + ap("plus", t + ci(x.a))));
+    default: return t;
+    }
+}
 static Injector mathInjector(const std::string &name, std::vector<Rule> expect, std::vector<MathVariant> variants)
 {
     Injector inj;
@@ -1465,6 +1491,12 @@ static Injector mathInjector(const std::string &name, std::vector<Rule> expect, 
                 std::string text = v.make(x);
                 if (text.empty()) continue; // variant not applicable here (e.g. no variable in another component)
                 o.push_back({l.cls + "/" + v.label, [l, text, v, x](ModelS &m) { setMath(m, l, text, v.whole, x); }, nullptr, v.expect, l.holder + "/" + v.label});
+                if (v.whole || !g_fullMath) continue;
+                for (size_t pos = 1; pos < mathPositions().size(); ++pos) {
+                    std::string placed = atPosition(pos, text, x);
+                    std::string at = "@" + mathPositions()[pos];
+                    o.push_back({l.cls + "/" + v.label + at, [l, placed, v, x](ModelS &m) { setMath(m, l, placed, false, x); }, nullptr, v.expect, l.holder + "/" + v.label + at});
+                }
             }
         }
     };
